@@ -8,6 +8,8 @@ package main
 
 import (
 	"bufio"
+	"bytes"
+	"encoding/binary"
 	"encoding/json"
 	"fmt"
 	"io"
@@ -21,6 +23,8 @@ import (
 
 	"github.com/kubeshark/base/pkg/api"
 	"github.com/kubeshark/base/pkg/extensions"
+	"golang.org/x/net/http2"
+	"golang.org/x/net/http2/hpack"
 
 	"verif/harness/mock"
 	"verif/harness/sched"
@@ -41,9 +45,75 @@ func pidOf(v interface{}) int {
 	return n
 }
 
-// ---- message encoders (one message carries one pid marker)
-func encode(proto string, isReq bool, pid int) []byte {
+// per-side encoder state (HPACK dynamic table of one half connection)
+type encState struct {
+	hbuf bytes.Buffer
+	henc *hpack.Encoder
+}
+
+func newEncState() *encState {
+	e := &encState{}
+	e.henc = hpack.NewEncoder(&e.hbuf)
+	return e
+}
+
+func be32(n int) []byte    { b := make([]byte, 4); binary.BigEndian.PutUint32(b, uint32(n)); return b }
+func be16(n int) []byte    { b := make([]byte, 2); binary.BigEndian.PutUint16(b, uint16(n)); return b }
+func kstr(s string) []byte { return append(be16(len(s)), []byte(s)...) }
+
+// setup bytes a side sends before its first message
+func setup(proto string, isClient bool) []byte {
+	if proto != "http2" {
+		return nil
+	}
+	var out bytes.Buffer
+	if isClient {
+		out.WriteString(http2.ClientPreface)
+	}
+	fr := http2.NewFramer(&out, nil)
+	fr.WriteSettings()
+	return out.Bytes()
+}
+
+// ---- message encoders (one message carries one pid marker); key = stream id / correlation id
+func encode(proto string, isReq bool, pid int, key int, st *encState) []byte {
 	mark := fmt.Sprintf("zq%dqz", pid)
+	switch proto {
+	case "http2":
+		st.hbuf.Reset()
+		if isReq {
+			st.henc.WriteField(hpack.HeaderField{Name: ":method", Value: "GET"})
+			st.henc.WriteField(hpack.HeaderField{Name: ":scheme", Value: "http"})
+			st.henc.WriteField(hpack.HeaderField{Name: ":authority", Value: "example.com"})
+			st.henc.WriteField(hpack.HeaderField{Name: ":path", Value: "/" + mark})
+		} else {
+			st.henc.WriteField(hpack.HeaderField{Name: ":status", Value: "200"})
+			st.henc.WriteField(hpack.HeaderField{Name: "x-id", Value: mark})
+		}
+		var out bytes.Buffer
+		fr := http2.NewFramer(&out, nil)
+		fr.WriteHeaders(http2.HeadersFrameParam{StreamID: uint32(key), BlockFragment: append([]byte(nil), st.hbuf.Bytes()...), EndStream: true, EndHeaders: true})
+		return out.Bytes()
+	case "kafka":
+		var body []byte
+		if isReq {
+			// Metadata v0 request: header (api key 3, version 0, correlation id, client id) + empty topic array
+			body = append(body, be16(3)...)
+			body = append(body, be16(0)...)
+			body = append(body, be32(key)...)
+			body = append(body, kstr(mark)...)
+			body = append(body, be32(0)...)
+		} else {
+			// Metadata v0 response: correlation id, one broker whose host carries the marker, no topics
+			body = append(body, be32(key)...)
+			body = append(body, be32(1)...)
+			body = append(body, be32(7)...)
+			body = append(body, kstr(mark)...)
+			body = append(body, be32(9092)...)
+			body = append(body, be32(0)...)
+		}
+		return append(be32(len(body)), body...)
+	}
 	switch proto {
 	case "redis":
 		if isReq {
@@ -105,10 +175,14 @@ type connState struct {
 
 func newWorld(proto string, conns []int) *world {
 	extensions.LoadExtensions()
-	ext := extensions.ExtensionsMap[proto]
+	extName := proto
+	if proto == "http2" {
+		extName = "http"
+	}
+	ext := extensions.ExtensionsMap[extName]
 	w := &world{proto: proto, ext: ext, matcher: ext.Dissector.NewResponseRequestMatcher(), stats: &api.AppStats{},
 		out: make(chan *api.OutputChannelItem, 4096), conns: map[int]*connState{}, connList: conns}
-	w.matcher.SetMaxTry(5)
+	w.matcher.SetMaxTry(50)
 	for _, c := range conns {
 		st := &mock.Stream{PcapId: fmt.Sprintf("s%d", c)}
 		cip, sip := fmt.Sprintf("10.0.0.%d", c), fmt.Sprintf("10.1.0.%d", c)
@@ -214,6 +288,7 @@ func seqMode() {
 		type ev struct {
 			s   side
 			pid int
+			key int
 		}
 		var evs []ev
 		connSet := map[int]bool{}
@@ -221,7 +296,11 @@ func seqMode() {
 			f := strings.Split(tok, ":")
 			c, _ := strconv.Atoi(f[0])
 			p, _ := strconv.Atoi(f[2])
-			evs = append(evs, ev{side{c, f[1] == "c"}, p})
+			k := 0
+			if len(f) > 3 {
+				k, _ = strconv.Atoi(f[3])
+			}
+			evs = append(evs, ev{side{c, f[1] == "c"}, p, k})
 			connSet[c] = true
 		}
 		var conns []int
@@ -230,8 +309,15 @@ func seqMode() {
 		}
 		sort.Ints(conns)
 		res := runSeq(proto, conns, func(deliver func(s side, data []byte) bool) {
+			encs := map[side]*encState{}
 			for _, e := range evs {
-				deliver(e.s, encode(proto, e.s.isClient, e.pid))
+				if encs[e.s] == nil {
+					encs[e.s] = newEncState()
+					if sb := setup(proto, e.s.isClient); sb != nil {
+						deliver(e.s, sb)
+					}
+				}
+				deliver(e.s, encode(proto, e.s.isClient, e.pid, e.key, encs[e.s]))
 			}
 		})
 		b, _ := json.Marshal(res)
@@ -392,8 +478,12 @@ func concMode(args []string) {
 			i, t := i, t
 			bodies[names[i]] = func() {
 				r := wd.reader(t.s.conn, t.s.isClient)
-				for _, p := range t.pids {
-					r.Chunks = append(r.Chunks, encode(proto, t.s.isClient, p))
+				es := newEncState()
+				if sb := setup(proto, t.s.isClient); sb != nil {
+					r.Chunks = append(r.Chunks, sb)
+				}
+				for j, p := range t.pids {
+					r.Chunks = append(r.Chunks, encode(proto, t.s.isClient, p, 2*j+1, es))
 				}
 				e := "eof"
 				func() {
@@ -448,12 +538,16 @@ func stressMode(args []string) {
 		for _, isClient := range []bool{true, false} {
 			isClient := isClient
 			r := wd.reader(1, isClient)
+			es := newEncState()
+			if sb := setup(proto, isClient); sb != nil {
+				r.Chunks = append(r.Chunks, sb)
+			}
 			for k := 0; k < nx; k++ {
 				pid := 100 + k
 				if !isClient {
 					pid = 200 + k
 				}
-				r.Chunks = append(r.Chunks, encode(proto, isClient, pid))
+				r.Chunks = append(r.Chunks, encode(proto, isClient, pid, 2*k+1, es))
 			}
 			wg.Add(1)
 			go func() {
